@@ -50,6 +50,11 @@ class ExprMixin:
             fr = fr.closure_parent
             if fr is None:
                 break
+        cs = getattr(f, "class_scope", None)
+        if cs is not None:
+            r = self.M.lookup_class_attr(cs, name)
+            if r is not None:
+                return self.eval_in_module(r[0].module, r[1], r[0])
         return self.global_name(f.module, name, e)
 
     def global_name(self, module, name, e=None):
@@ -61,6 +66,9 @@ class ExprMixin:
                 return V(("builtin", name), [("builtin", name)])
             if e is not None and self.frames[-1].func is not None and self.name_is_local(name):
                 self.raise_exc("UnboundLocalError", e, explicit=False)
+            root = self.frames[0].func
+            if root is not None and root.outer is not None:
+                return V(("free", name))
             raise AnalysisError("unresolved name %r at %s" % (name, self.here(e) if e is not None else module.name))
         return self.static_value(r)
 
@@ -195,6 +203,10 @@ class ExprMixin:
         is_and = isinstance(e.op, ast.And)
         last = None
         deps = set()
+        if self.cfg.all_branches:
+            vals = [self.ev(x) for x in e.values]
+            self._remember(vals)
+            return V(("boolop", tuple(v.t for v in vals)), (), self._deps(vals))
         for x in e.values:
             v = self.ev(x)
             deps |= v.dep
@@ -333,6 +345,10 @@ class ExprMixin:
 
     def ev_IfExp(self, e):
         c = self.ev(e.test)
+        if self.cfg.all_branches:
+            a = self.ev(e.body)
+            b = self.ev(e.orelse)
+            return V(a.t, a.ty | b.ty, a.dep | b.dep | c.dep)
         tr = self.truth(c)
         fr = self.frames[-1]
         fr.ctrl.append((c, tr))
